@@ -29,9 +29,11 @@ class FastPolicy(Container[Sequence[str]]):
     _cache: Dict[str, Any]
     _current_filter: Optional[Set[Sequence[str]]]
     _cache_key_order: Sequence[int]
+    _size: int
 
     def __init__(self, cache_key_order: Sequence[int]) -> None:
         self._cache = {}
+        self._size = 0
         self._current_filter = None
         self._cache_key_order = cache_key_order
 
@@ -39,7 +41,8 @@ class FastPolicy(Container[Sequence[str]]):
         yield from self.__get_policy()
 
     def __len__(self) -> int:
-        return len(list(self.__get_policy()))
+        # the number of stored rules: a filter narrows what is iterated, it does not empty the policy
+        return self._size
 
     def __contains__(self, item: object) -> bool:
         if not isinstance(item, (list, tuple)) or any(x >= len(item) for x in self._cache_key_order):
@@ -67,7 +70,9 @@ class FastPolicy(Container[Sequence[str]]):
         if keys[-1] not in cache:
             cache[keys[-1]] = set()
 
-        cache[keys[-1]].add(tuple(item))
+        if tuple(item) not in cache[keys[-1]]:
+            cache[keys[-1]].add(tuple(item))
+            self._size += 1
 
     def remove(self, policy: Sequence[str]) -> bool:
         keys = [policy[x] for x in self._cache_key_order]
@@ -76,6 +81,7 @@ class FastPolicy(Container[Sequence[str]]):
             return True
 
         exists.remove(tuple(policy))
+        self._size -= 1
         return True
 
     def __get_policy(self) -> Iterable[Sequence[str]]:
